@@ -501,6 +501,10 @@ func nativeReplay(repo string, overlays map[string]string, pkg, entry, file, scr
 	if err != nil && strings.Contains(s, "VERIF-REPRODUCED") {
 		return true, s
 	}
+	if err != nil && (strings.Contains(s, "fatal error: stack overflow") || strings.Contains(s, "goroutine stack exceeds")) {
+		// the real build dies on this input: the strongest reproduction there is
+		return true, s
+	}
 	return false, s
 }
 
